@@ -111,6 +111,37 @@ defprog! {
    }
 }
 
+// heads that are write-only inside a recursive stratum (multi-head rules) and are derived again by
+// a later stratum: their index entries must survive the end of the recursive stratum
+defprog! {
+   name: write_only_heads;
+   timeouts: yes;
+   positive: true;
+   tags: ["c02", "c05", "c13", "c14", "c20", "graph", "lattice"];
+   rels: {
+      relation edge(u32, u32) [input];
+      relation seed(u32) [input];
+      relation path(u32, u32) [];
+      relation via(u32, u32) [];
+      relation multi(u32) [input];
+      lattice first_hop(u32, Dual<u32>) [];
+      lattice hops(u32, u32, u32) [];
+      relation late(u32, u32) [];
+   }
+   gens: [("closed", gens::closed), ("random", gens::random), ("diamond", gens::diamond), ("chain", gens::chain), ("dense", gens::dense)];
+   rules: {
+      path(x, y), hops(x, y, 1) <-- edge(x, y);
+      // `via`, `multi`, `first_hop`, `hops` are written but never read in this recursive stratum
+      path(x, z), via(x, y), multi(x), first_hop(x, Dual(*y)), hops(x, z, 2) <-- path(x, y), edge(y, z);
+      // a later stratum derives the same tuples / the same lattice keys again
+      via(x, y) <-- seed(x), edge(x, y);
+      multi(x) <-- seed(x), path(x, _);
+      first_hop(x, Dual(*x)) <-- seed(x), path(x, _);
+      hops(x, y, 0) <-- path(x, y), seed(y);
+      late(x, y) <-- via(x, y), multi(x), first_hop(x, _);
+   }
+}
+
 pub fn all() -> Vec<ProgramDef> {
-   vec![shortest_path::def(), longest_bounded::def(), const_prop::def(), reach_sets::def(), lat_noindex::def()]
+   vec![shortest_path::def(), longest_bounded::def(), const_prop::def(), reach_sets::def(), lat_noindex::def(), write_only_heads::def()]
 }
